@@ -12,7 +12,10 @@ use std::pin::Pin;
 use std::task::{Context, Poll};
 
 use crate::internal::sync::{Arc, AtomicBool, Ordering};
+#[cfg(not(all(excsn_fibre_verif, excsn_fibre_verif_shuttle)))]
 use std::time::{Duration, Instant};
+#[cfg(all(excsn_fibre_verif, excsn_fibre_verif_shuttle))]
+use {crate::internal::sync::Instant, std::time::Duration};
 
 use futures_core::Stream;
 
